@@ -5,7 +5,7 @@ from bluesky.utils import Msg
 
 def precedence(model, info, art):
     problems = []
-    RE = RunEngine({"shared": "md", "only_md": 1, "scan_id": 41}, context_managers=[])
+    RE = RunEngine({"shared": "md", "only_md": 1, "scan_id": 41, "plan_name": "from_md", "plan_type": "from_md"}, context_managers=[])
     docs = []
     RE.subscribe(lambda n, d: docs.append((n, d)))
 
@@ -14,8 +14,8 @@ def precedence(model, info, art):
         yield Msg("close_run")
     RE(plan(), shared="call", only_call=3)
     st = [d for n, d in docs if n == "start"][0]
-    if (st["shared"], st["only_md"], st["only_msg"], st["only_call"], st["plan_name"], st["scan_id"]) != ("call", 1, 2, 3, "plan", 42):
-        problems.append(f"start document {dict((k, st[k]) for k in ('shared', 'only_md', 'only_msg', 'only_call', 'plan_name', 'scan_id'))}")
+    if (st["shared"], st["only_md"], st["only_msg"], st["only_call"], st["plan_name"], st["plan_type"], st["scan_id"]) != ("call", 1, 2, 3, "plan", "generator", 42):
+        problems.append(f"start document {dict((k, st[k]) for k in ('shared', 'only_md', 'only_msg', 'only_call', 'plan_name', 'plan_type', 'scan_id'))}")
     # rejected open must not consume a scan_id
     reject = {"on": True}
 
@@ -35,4 +35,23 @@ def precedence(model, info, art):
     st2 = [d for n, d in docs if n == "start"][0]
     if st2["scan_id"] != 43:
         problems.append(f"scan_id after a rejected open is {st2['scan_id']} (previous opened run had 42)")
+    # a raising normalizer must not consume a scan_id either
+    RE.md_validator = lambda md: None
+    boom = {"on": True}
+
+    def normalizer(md):
+        if boom["on"]:
+            boom["on"] = False
+            raise ValueError("normalizer failed")
+        return md
+    RE.md_normalizer = normalizer
+    docs.clear()
+    try:
+        RE(plan())
+    except ValueError:
+        pass
+    RE(plan())
+    st3 = [d for n, d in docs if n == "start"]
+    if len(st3) != 1 or st3[0]["scan_id"] != 44:
+        problems.append(f"scan_id after a failing normalizer is {[d['scan_id'] for d in st3]} (previous opened run had 43)")
     return ("confirmed" if problems else "contradicted"), "; ".join(problems) or "precedence and scan_id as documented"
